@@ -145,6 +145,9 @@ type Def struct {
 	Fields  []*FieldDef
 	Value   *ConstVal
 	Parent  *Ref
+	// ParentVia > 0: the parent is written with two qualifiers, `via.file.Name`, through the
+	// included file ParentVia-1 (which includes the parent's file)
+	ParentVia int
 	Funcs   []*Func
 	Annot   string // rendered annotations, e.g. (go.name = "X")
 	Removed bool   // used by edit scripts
@@ -413,6 +416,20 @@ func (p *Program) addRecursion() {
 	if keyed != nil && simrt.Flip("rec.keyed-default", 0.6) {
 		self.Default = keyed
 	}
+	if n == 0 && (target.Base == "list" || target.Base == "map") && self.Default == nil && simrt.Flip("rec.default-from-constant", 0.3) {
+		// `struct S {1: optional list<S> kids = NO_KIDS}  const list<S> NO_KIDS = []`: the
+		// constant's type leads back to the struct whose default names the constant
+		empty := &ConstVal{Kind: CList}
+		if target.Base == "map" {
+			empty = &ConstVal{Kind: CMap}
+		}
+		c := p.add(f, &Def{Kind: KConst, Name: p.name("Ck"), Type: target, Value: empty})
+		self.Default = &ConstVal{Kind: CRef, Ref: &Ref{c.File, c.Name}}
+		if simrt.Flip("rec.constant-shared", 0.5) {
+			// the empty constant is also used where nothing recursive is involved
+			p.add(f, &Def{Kind: KStruct, Name: p.name("S"), Fields: []*FieldDef{{ID: 1, Name: "other", Req: ReqOptional, Type: target, Default: &ConstVal{Kind: CRef, Ref: &Ref{c.File, c.Name}}}}})
+		}
+	}
 	if p.recDefaults && n > 0 && (target.Base == "list" || target.Base == "map") && simrt.Flip("rec.container-default", 0.2) {
 		// `typedef S Rt; struct S {1: optional list<Rt> kids = []}`: an empty container default
 		// on the recursive member itself (same early cast as F6 when Rt is linked first)
@@ -488,6 +505,11 @@ func (p *Program) addServiceChain(o Options) {
 	base := mk(pt.c, "Base", nil)
 	mid := mk(pt.b, "Mid", &Ref{base.File, base.Name})
 	mk(pt.a, "Leaf", &Ref{mid.File, mid.Name})
+	if simrt.Flip("chain.two-qualifiers", 0.4) {
+		// ... and a service of a that names the grandparent directly, through b: `extends b.c.Base`
+		deep := mk(pt.a, "Deep", &Ref{base.File, base.Name})
+		deep.ParentVia = pt.b + 1
+	}
 }
 
 // addServiceDiamond: file a includes b and f, f includes b; b declares a parent
@@ -1563,7 +1585,9 @@ func (p *Program) Render(i int) string {
 			fmt.Fprintf(&b, "const %s %s = %s\n", p.TypeText(i, d.Type), d.Name, p.ConstText(i, d.Value))
 		case KService:
 			fmt.Fprintf(&b, "service %s", d.Name)
-			if d.Parent != nil {
+			if d.Parent != nil && d.ParentVia > 0 {
+				fmt.Fprintf(&b, " extends %s.%s.%s", p.Files[d.ParentVia-1].Base, p.Files[d.Parent.File].Base, d.Parent.Name)
+			} else if d.Parent != nil {
 				fmt.Fprintf(&b, " extends %s", p.refText(i, d.Parent))
 			}
 			b.WriteString(" {\n")
